@@ -4,7 +4,7 @@ set -e
 cd "$(dirname "$0")"
 coqc -Q ../coq Moss Extract.v >/dev/null
 mkdir -p ../.build
-for drv in flatrun treerun indexrun rorun crashrun codecrun histrun faultrun iterrun syncrun concrun refsrun ownersrun; do
+for drv in flatrun treerun indexrun rorun crashrun codecrun histrun histtreerun faultrun iterrun syncrun concrun refsrun ownersrun; do
   ocamlfind ocamlopt -w -a -package str model.mli model.ml sexp.ml conv.ml $drv.ml -o ../.build/$drv
 done
 # the persistence-round model (StoreOps.v) is extracted into opsmodel.ml by Extract.v
